@@ -98,6 +98,16 @@ def _gen_function(classes, contracts, name, extra=None):
         out['dropped_prefix'] = getattr(eng, 'dropped_prefix', None)
         out['helpers_inlined'] = getattr(eng, 'helper_sources', {})
         out['path_list'] = eng.paths_ended
+    except KeyError as e:
+        if 'not found' in str(e):
+            # the function under contract does not exist any more (removed / renamed): a named obligation that fails
+            nm = '%s/-/the function under contract exists in the source' % name
+            out['sha'] = 'missing'
+            out['obligations'].append((nm, 'structure', 'g', str(e)))
+            out['groups'].append(dict(prelude='(declare-fun pyvc_goal_0 () Bool)\n(assert (=> pyvc_goal_0 true))\n',
+                                      checks=[(nm, 'structure', str(e), 'pyvc_goal_0')]))
+        else:
+            out['error'] = 'CRASH: %s\n%s' % (e, ''.join(traceback.format_exc().splitlines(True)[-12:]))
     except Untranslated as e:
         out['error'] = 'UNTRANSLATED: %s' % e
     except Exception as e:
